@@ -231,7 +231,7 @@ func c12EnumSpace(a *c12Agg, sp *c12Space, item *int64) {
 }
 
 // c12LossFreeWarm: what the sender went through, loss-free, before the measured greedy run.
-func c12LossFreeWarm() [][]int {
+func c12LossFreeWarm(thorough bool) [][]int {
 	w := [][]int{{}}
 	for i := range c12Pings {
 		w = append(w, []int{c12NEv + i})
@@ -240,8 +240,22 @@ func c12LossFreeWarm() [][]int {
 		w = append(w, []int{c12EvClean12, c12EvClean12, c12EvClean12, c12NEv + i}) // on an established connection
 	}
 	w = append(w, []int{c12EvApp}, []int{c12EvClean12, c12EvApp}, []int{c12EvIdle}, []int{c12EvClean12, c12EvClean12, c12EvIdle}, []int{c12EvClean12, c12EvAgg, c12EvApp, c12NEv + 2})
+	// the sender installed in the middle of a live connection: packets of the previous controller
+	// are acknowledged to it first (added after the independently seeded change C12-8: a round
+	// without any bandwidth estimate counted as a round without growth, so STARTUP ended before the
+	// first sample). Quick: one packet per event while idle, every number of events; the extremes
+	// of the rest.
+	for i, g := range c12Earliers {
+		if thorough || (!g.Busy && g.J == 1) || g.K == 1 || g.K == 6 {
+			w = append(w, []int{c12NEv + len(c12Pings) + i})
+		}
+	}
 	return w
 }
+
+// c12WarmIsInstall: the warm-up is a mid-connection installation (run on every path: it involves no
+// application-limited exchange, so the assumption on acknowledgement frequency does not apply).
+func c12WarmIsInstall(w []int) bool { return len(w) > 0 && w[0] >= c12NEv+len(c12Pings) }
 
 func c12LossFree(a *c12Agg, item *int64) {
 	sh := a.sh
@@ -251,19 +265,21 @@ func c12LossFree(a *c12Agg, item *int64) {
 	for i := range c12Paths {
 		names = append(names, c12Paths[i].Name)
 	}
-	warm := c12LossFreeWarm()
+	warm := c12LossFreeWarm(env.Thorough())
 	var wn []string
 	for _, w := range warm {
 		wn = append(wn, c12SeqNames(w))
 	}
 	p.Alphabet = map[string]any{"profiles": c12Profiles, "paths": names, "cycle_offset_draws": c12Draws,
-		"before_the_run": wn, "pingpongKxNpkt+Trtt": "K exchanges: the application sends N packets, then nothing until all are acknowledged (pipe empty), then waits T round trips",
-		"run": "200 RTT, sender always has data, no injected loss; utilisation = acknowledged bytes in RTT 40..200 / (capacity * 160 RTT)"}
+		"before_the_run": wn,
+		"installed-mid-connection:KxJpkt-of-previous-controller-acked-while-idle|sending": "first event of the trace: K*J packets sent before the sender existed (no OnPacketSent) are acknowledged to it in K events 1 ms apart, RTT already measured by the handshake; the application has nothing to send until then (idle) or sends from the start (sending); K in 1..6, J in 1..2 (quick: J=1 idle for every K, everything for K=1 and K=6)",
+		"pingpongKxNpkt+Trtt": "K exchanges: the application sends N packets, then nothing until all are acknowledged (pipe empty), then waits T round trips",
+		"run":                 "200 RTT, sender always has data, no injected loss; utilisation = acknowledged bytes in RTT 40..200 / (capacity * 160 RTT)"}
 	p.Bounds = map[string]any{"threshold": "utilisation >= 0.50 over RTT 40..200 and in each of the four 40-RTT windows in it, for every draw", "rtts": 200}
 	for _, prof := range c12Profiles {
 		for pi := range c12Paths {
 			for wi, w := range warm {
-				if wi > 0 && c12Paths[pi].AckEvery > 2 {
+				if wi > 0 && c12Paths[pi].AckEvery > 2 && !c12WarmIsInstall(w) {
 					continue // see the assumption on acknowledgement frequency
 				}
 				*item++
@@ -468,6 +484,9 @@ func c12Replay(part string, raw json.RawMessage) (bool, bool, string) {
 	}
 	if c.RTTs > 0 && r.clause == "" && r.util < 0.5 {
 		r.clause, r.detail = "utilisation<50%", fmt.Sprintf("utilisation %.1f%%", 100*r.util)
+	}
+	if c.RTTs > 0 && r.clause == "" && r.utilMinWin < 0.5 {
+		r.clause, r.detail = "a-40-rtt-window<50%", fmt.Sprintf("utilisation %.1f%%, %.1f%% in the lowest 40-RTT window", 100*r.util, 100*r.utilMinWin)
 	}
 	if r.infra != "" {
 		return true, false, "simulator: " + r.infra
